@@ -30,6 +30,7 @@ type CheckCfg struct {
 	Outside      []string          `json:"outside_claim"`
 	Assumptions  []string          `json:"assumptions"`
 	MaxPaths     int               `json:"max_paths,omitempty"`
+	ScanSites    string            `json:"scan_sites,omitempty"` // allow-list of nondeterminism sites (C14)
 	TimeoutMs    int               `json:"timeout_ms,omitempty"`
 }
 
@@ -67,6 +68,7 @@ func main() {
 		noEvid   = flag.Bool("no-evidence", false, "do not write the evidence file (debug)")
 		verbose  = flag.Bool("v", false, "verbose")
 		maxPaths = flag.Int("maxpaths", 0, "override the path bound (debug)")
+		scanOnly = flag.Bool("scan", false, "print the nondeterminism sites and exit (debug)")
 	)
 	flag.Parse()
 	if t := os.Getenv("VERIF_TIER"); t != "" && !flagSet("tier") {
@@ -159,6 +161,12 @@ func main() {
 	}
 	prog.Build()
 
+	if *scanOnly {
+		for _, st := range scanSites(prog, harnessFiles) {
+			fmt.Printf("%s\t%s\t%d\t%s\t%s\n", st.Kind, st.Func, st.N, st.Pos, st.What)
+		}
+		return
+	}
 	// ---- entries ----
 	var entries []*ssa.Function
 	onlySet := map[string]bool{}
@@ -258,7 +266,12 @@ func main() {
 	}
 	wg.Wait()
 
-	code := report(*verifDir, *prop, *tier, seed, t0, loadS, cc, entries, results, knownWhat, *noEvid, prog)
+	var extraInconclusive []string
+	var siteReport map[string]interface{}
+	if cc.ScanSites != "" {
+		extraInconclusive, siteReport = checkSites(prog, harnessFiles, filepath.Join(*verifDir, cc.ScanSites), entries)
+	}
+	code := report(*verifDir, *prop, *tier, seed, t0, loadS, cc, entries, results, knownWhat, *noEvid, prog, extraInconclusive, siteReport)
 	os.Exit(code)
 }
 
